@@ -27,4 +27,10 @@ def clear_all() -> int:
     from typelib.py import classes
 
     classes._stack.clear()
+    # typing's own generic-alias caches are keyed by ==, and Union equality ignores member order: without this,
+    # `(A | B) | None` may come back in the member order of an earlier `(B | A) | None` of the same process.
+    import typing
+
+    for f in getattr(typing, "_cleanups", ()):
+        f()
     return len(cs)
